@@ -159,6 +159,9 @@ func (e *Env) open() error {
 		gofakes3.WithAutoBucket(cfg.AutoBucket),
 		gofakes3.WithHostBucket(cfg.HostBucket),
 	}
+	if os.Getenv("SIMCHECK_DEBUG") != "" {
+		opts = append(opts, gofakes3.WithGlobalLog())
+	}
 	if cfg.MetaLimit != 0 {
 		opts = append(opts, gofakes3.WithMetadataSizeLimit(cfg.MetaLimit))
 	}
